@@ -1,5 +1,16 @@
 import QmiModel.Model.WakeSys
 import QmiModel.Lemmas.C11
+import QmiModel.Props.C11BigA
+import QmiModel.Props.C11BigB
+import QmiModel.Props.C11BigC
+import QmiModel.Props.C11BigD0
+import QmiModel.Props.C11BigD1
+import QmiModel.Props.C11BigD2
+import QmiModel.Props.C11BigD3
+import QmiModel.Props.C11BigD4
+import QmiModel.Props.C11BigD5
+import QmiModel.Props.C11BigD6
+import QmiModel.Props.C11BigD7
 /-!
 # C11 — a stop request always wakes a waiting task
 
@@ -16,6 +27,11 @@ Systems (thread 0 = the task thread, which waits again and again; see `Model/Wak
 * `sysRecvT`  — `get_next_signal(t)` (time-outs caught, loop continues), one stop request, a publisher
 * `sysLoop`   — `QMI_LoopTask.run` (period sleep, missed-period policies incl. self-stop), one stop request
 * `sysSleep2` — `self.sleep(d)`, two concurrent stop requests (`stop()` and `_request_shutdown`)
+* `sysAny`, `sysTwo`, `sysLoop2`, `sysAnyTwo` — free mixture of the three waits + publisher; two stop requests against
+  `get_next_signal(None)`; the loop task with two stop requests; free mixture + two stop requests + publisher (4.6k
+  states).  Their reachable sets are not computed by the kernel but supplied as tables (`Gen/WakeCert.lean`, written by
+  the compiled driver on every run) and *checked* chunk by chunk (`Props/C11Big*.lean`, glued by `cert_chunks_sound`)
+* `sysEarly st n` — stop request(s) for a task thread that is not inside `task.run()` (`_state = st`)
 
 What "interleaving" means: every operation on a shared object (lock, condition, event, `_wait_cond` slot) is one step;
 thread-local control flow is fused into the preceding step.  Time is abstract (a timed wait may time out whenever its lock
@@ -32,22 +48,6 @@ def LostWakeup (sys : Sys) (s : St) : Prop := lostWakeup sys s = true
 
 /-- the task thread is parked in a wait -/
 def TaskParked (s : St) : Prop := ∃ t, taskTh s = some t ∧ t.isParked = true
-
-/-- the task thread has ended by QMI_TaskStopException -/
-def endedByStop (s : St) : Bool := match taskTh s with | some t => t.status == .raised .stop | none => false
-
-/-- the loop task's `run()` has returned normally after exactly one `loop_finalize` -/
-def endedFinalised (s : St) : Bool := match taskTh s with | some t => t.status == .done && s.fin == 1 | none => false
-
-/-- everything C11 asks of one state of a system with a generic waiting task -/
-def goodWaiter (sys : Sys) (s : St) : Bool :=
-  !lostWakeup sys s && !anyCrashed s && stopSetsFlag sys s && noParkAfterStop sys s && exitOnlyByStop s &&
-  releasedB sys endedByStop s && progress sys s
-
-/-- the same for the loop task -/
-def goodLoop (sys : Sys) (s : St) : Bool :=
-  !lostWakeup sys s && !anyCrashed s && stopSetsFlag sys s && noParkAfterStop sys s && loopExit s &&
-  releasedB sys endedFinalised s && progress sys s
 
 /-! ## per-system obligations — re-evaluated by the kernel whenever `Gen/SyncProgs.lean` changes -/
 
@@ -66,18 +66,147 @@ theorem cert_loop : certB sysLoop (goodLoop sysLoop) = true := by decide +kernel
 set_option maxRecDepth 200000 in
 theorem cert_sleep2 : certB sysSleep2 (goodWaiter sysSleep2) = true := by decide +kernel
 
+/-! `stop_task` reached in the other states of the task thread (`_TaskThread._state`), through the generated
+`QMI_TaskRunner.stop` and `_TaskThread._request_shutdown`: not started yet (two concurrent requests), construction
+failed, and already ended (normally / by an exception / stopped before start). -/
+
+set_option maxRecDepth 200000 in
+theorem cert_state_initial : certB (sysEarly Gen.SyncProgs.stInitial 1) (earlyGood (sysEarly Gen.SyncProgs.stInitial 1) Gen.SyncProgs.stInitial) = true := by
+  decide +kernel
+
+set_option maxRecDepth 200000 in
+theorem cert_state_ready : certB (sysEarly Gen.SyncProgs.stReady 2) (earlyGood (sysEarly Gen.SyncProgs.stReady 2) Gen.SyncProgs.stReady) = true := by
+  decide +kernel
+
+set_option maxRecDepth 200000 in
+theorem cert_state_exc_init : certB (sysEarly Gen.SyncProgs.stExcInit 1) (earlyGood (sysEarly Gen.SyncProgs.stExcInit 1) Gen.SyncProgs.stExcInit) = true := by
+  decide +kernel
+
+set_option maxRecDepth 200000 in
+theorem cert_state_completed : certB (sysEarly Gen.SyncProgs.stCompleted 2) (earlyGood (sysEarly Gen.SyncProgs.stCompleted 2) Gen.SyncProgs.stCompleted) = true := by
+  decide +kernel
+
+set_option maxRecDepth 200000 in
+theorem cert_state_exc_run : certB (sysEarly Gen.SyncProgs.stExcRun 1) (earlyGood (sysEarly Gen.SyncProgs.stExcRun 1) Gen.SyncProgs.stExcRun) = true := by
+  decide +kernel
+
+set_option maxRecDepth 200000 in
+theorem cert_state_stopped : certB (sysEarly Gen.SyncProgs.stStoppedBeforeStart 1) (earlyGood (sysEarly Gen.SyncProgs.stStoppedBeforeStart 1) Gen.SyncProgs.stStoppedBeforeStart) = true := by
+  decide +kernel
+
+/-- **`stop_task` is total over the states of the task thread.**  Whatever `_state` is when the stop request(s) arrive —
+    through `QMI_TaskRunner.stop` or `_request_shutdown` — no thread dies of an assertion or a misuse of a primitive, the
+    requests never block for ever, and once they have all returned `_state` is "stopped before start" if the task had not
+    been started (so `run()` is never called and the task never waits) and unchanged otherwise; for a task that had been
+    started (running or ended) the flag is set, for one whose construction failed it is not touched. -/
+theorem stop_task_total {st n : Nat}
+    (h : (st, n) ∈ [(Gen.SyncProgs.stInitial, 1), (Gen.SyncProgs.stReady, 2), (Gen.SyncProgs.stExcInit, 1),
+                    (Gen.SyncProgs.stCompleted, 2), (Gen.SyncProgs.stExcRun, 1), (Gen.SyncProgs.stStoppedBeforeStart, 1)]) :
+    ∀ s, Reach (sysEarly st n) s → earlyGood (sysEarly st n) st s = true := by
+  simp only [List.mem_cons, Prod.mk.injEq, List.not_mem_nil, or_false] at h
+  rcases h with ⟨rfl, rfl⟩ | ⟨rfl, rfl⟩ | ⟨rfl, rfl⟩ | ⟨rfl, rfl⟩ | ⟨rfl, rfl⟩ | ⟨rfl, rfl⟩
+  · exact cert_sound cert_state_initial
+  · exact cert_sound cert_state_ready
+  · exact cert_sound cert_state_exc_init
+  · exact cert_sound cert_state_completed
+  · exact cert_sound cert_state_exc_run
+  · exact cert_sound cert_state_stopped
+
+
+/-! ## the larger systems: chunk-wise checked certificates (`Props/C11Big*.lean`) glued by `cert_chunks_sound` -/
+open QmiModel.Gen.WakeCert in
+theorem any_good : ∀ s, Reach sysAny s → goodWaiter sysAny s = true := by
+  refine cert_chunks_sound any_init ?_
+  intro j hj
+  have hl : certAny.length = 3 := by decide +kernel
+  rw [hl] at hj
+  match j, hj with
+    | 0, _ => exact any_chunk_0
+    | 1, _ => exact any_chunk_1
+    | 2, _ => exact any_chunk_2
+    | n + 3, h => omega
+
+open QmiModel.Gen.WakeCert in
+theorem two_good : ∀ s, Reach sysTwo s → goodWaiter sysTwo s = true := by
+  refine cert_chunks_sound two_init ?_
+  intro j hj
+  have hl : certTwo.length = 4 := by decide +kernel
+  rw [hl] at hj
+  match j, hj with
+    | 0, _ => exact two_chunk_0
+    | 1, _ => exact two_chunk_1
+    | 2, _ => exact two_chunk_2
+    | 3, _ => exact two_chunk_3
+    | n + 4, h => omega
+
+open QmiModel.Gen.WakeCert in
+theorem loop2_good : ∀ s, Reach sysLoop2 s → goodLoop sysLoop2 s = true := by
+  refine cert_chunks_sound loop2_init ?_
+  intro j hj
+  have hl : certLoop2.length = 4 := by decide +kernel
+  rw [hl] at hj
+  match j, hj with
+    | 0, _ => exact loop2_chunk_0
+    | 1, _ => exact loop2_chunk_1
+    | 2, _ => exact loop2_chunk_2
+    | 3, _ => exact loop2_chunk_3
+    | n + 4, h => omega
+
+open QmiModel.Gen.WakeCert in
+theorem anyTwo_good : ∀ s, Reach sysAnyTwo s → goodWaiter sysAnyTwo s = true := by
+  refine cert_chunks_sound anyTwo_init ?_
+  intro j hj
+  have hl : certAnyTwo.length = 24 := by decide +kernel
+  rw [hl] at hj
+  match j, hj with
+    | 0, _ => exact anyTwo_chunk_0
+    | 1, _ => exact anyTwo_chunk_1
+    | 2, _ => exact anyTwo_chunk_2
+    | 3, _ => exact anyTwo_chunk_3
+    | 4, _ => exact anyTwo_chunk_4
+    | 5, _ => exact anyTwo_chunk_5
+    | 6, _ => exact anyTwo_chunk_6
+    | 7, _ => exact anyTwo_chunk_7
+    | 8, _ => exact anyTwo_chunk_8
+    | 9, _ => exact anyTwo_chunk_9
+    | 10, _ => exact anyTwo_chunk_10
+    | 11, _ => exact anyTwo_chunk_11
+    | 12, _ => exact anyTwo_chunk_12
+    | 13, _ => exact anyTwo_chunk_13
+    | 14, _ => exact anyTwo_chunk_14
+    | 15, _ => exact anyTwo_chunk_15
+    | 16, _ => exact anyTwo_chunk_16
+    | 17, _ => exact anyTwo_chunk_17
+    | 18, _ => exact anyTwo_chunk_18
+    | 19, _ => exact anyTwo_chunk_19
+    | 20, _ => exact anyTwo_chunk_20
+    | 21, _ => exact anyTwo_chunk_21
+    | 22, _ => exact anyTwo_chunk_22
+    | 23, _ => exact anyTwo_chunk_23
+    | n + 24, h => omega
+
 /-- the systems with a generic waiting task -/
-def waiterSystems : List Sys := [sysSleep, sysRecvN, sysRecvT, sysSleep2]
+def waiterSystems : List Sys := [sysSleep, sysRecvN, sysRecvT, sysSleep2, sysAny, sysTwo, sysAnyTwo]
+
+/-- the systems with the loop task -/
+def loopSystems : List Sys := [sysLoop, sysLoop2]
 
 theorem waiter_good {sys : Sys} (h : sys ∈ waiterSystems) : ∀ s, Reach sys s → goodWaiter sys s = true := by
   simp only [waiterSystems, List.mem_cons, List.not_mem_nil, or_false] at h
-  rcases h with rfl | rfl | rfl | rfl
+  rcases h with rfl | rfl | rfl | rfl | rfl | rfl | rfl
   · exact cert_sound cert_sleep
   · exact cert_sound cert_recvN
   · exact cert_sound cert_recvT
   · exact cert_sound cert_sleep2
+  · exact any_good
+  · exact two_good
+  · exact anyTwo_good
 
-theorem loop_good : ∀ s, Reach sysLoop s → goodLoop sysLoop s = true := cert_sound cert_loop
+theorem loop_good {sys : Sys} (h : sys ∈ loopSystems) : ∀ s, Reach sys s → goodLoop sys s = true := by
+  simp only [loopSystems, List.mem_cons, List.not_mem_nil, or_false] at h
+  rcases h with rfl | rfl
+  · exact cert_sound cert_loop
+  · exact loop2_good
 
 private theorem gw {sys : Sys} {s : St} (h : goodWaiter sys s = true) :
     lostWakeup sys s = false ∧ anyCrashed s = false ∧ stopSetsFlag sys s = true ∧ noParkAfterStop sys s = true ∧
@@ -86,12 +215,26 @@ private theorem gw {sys : Sys} {s : St} (h : goodWaiter sys s = true) :
   obtain ⟨⟨⟨⟨⟨⟨a, b⟩, c⟩, d⟩, e⟩, f⟩, g⟩ := h
   exact ⟨a, b, c, d, e, f, g⟩
 
-private theorem gl {s : St} (h : goodLoop sysLoop s = true) :
-    lostWakeup sysLoop s = false ∧ anyCrashed s = false ∧ stopSetsFlag sysLoop s = true ∧ noParkAfterStop sysLoop s = true ∧
-    loopExit s = true ∧ releasedB sysLoop endedFinalised s = true ∧ progress sysLoop s = true := by
+private theorem gl {sys : Sys} {s : St} (h : goodLoop sys s = true) :
+    lostWakeup sys s = false ∧ anyCrashed s = false ∧ stopSetsFlag sys s = true ∧ noParkAfterStop sys s = true ∧
+    loopExit s = true ∧ releasedB sys endedFinalised s = true ∧ progress sys s = true := by
   simp only [goodLoop, Bool.and_eq_true, Bool.not_eq_true'] at h
   obtain ⟨⟨⟨⟨⟨⟨a, b⟩, c⟩, d⟩, e⟩, f⟩, g⟩ := h
   exact ⟨a, b, c, d, e, f, g⟩
+
+/-- all kernel-checked systems in which the task thread is inside `task.run()` -/
+def allSystems : List Sys := loopSystems ++ waiterSystems
+
+/-- the obligations common to the loop task and the generic waiting tasks -/
+private theorem common {sys : Sys} (h : sys ∈ allSystems) (s : St) (hs : Reach sys s) :
+    lostWakeup sys s = false ∧ anyCrashed s = false ∧ stopSetsFlag sys s = true ∧ noParkAfterStop sys s = true ∧
+    progress sys s = true := by
+  simp only [allSystems, List.mem_append] at h
+  rcases h with h | h
+  · have g := gl (loop_good h s hs)
+    exact ⟨g.1, g.2.1, g.2.2.1, g.2.2.2.1, g.2.2.2.2.2.2⟩
+  · have g := gw (waiter_good h s hs)
+    exact ⟨g.1, g.2.1, g.2.2.1, g.2.2.2.1, g.2.2.2.2.2.2⟩
 
 /-! ## the property -/
 
@@ -101,43 +244,30 @@ theorem closure_sound (sys : Sys) (S : St → Prop)
     (hinit : ∀ s ∈ inits sys, S s) (hclosed : ∀ s, S s → ∀ t ∈ succs sys s, S t) :
     ∀ s, Reach sys s → S s := QmiModel.Wake.closure_sound sys S hinit hclosed
 
-/-- **No lost wake-up**, for `sleep()`, `get_next_signal()` with and without timeout and the loop task's period sleep,
-    under every interleaving of the stop request(s), the publisher and the task thread. -/
-theorem no_lost_wakeup {sys : Sys} (h : sys ∈ sysLoop :: waiterSystems) : ∀ s, Reach sys s → ¬ LostWakeup sys s := by
+/-- **No lost wake-up**, for `sleep()`, `get_next_signal()` with and without timeout, any mixture of them, and the loop
+    task's period sleep, under every interleaving of one or two stop requests, the publisher and the task thread. -/
+theorem no_lost_wakeup {sys : Sys} (h : sys ∈ allSystems) : ∀ s, Reach sys s → ¬ LostWakeup sys s := by
   intro s hs hl
-  simp only [List.mem_cons] at h
-  rcases h with rfl | h
-  · have := (gl (loop_good s hs)).1
-    simp [LostWakeup, this] at hl
-  · have := (gw (waiter_good (by simpa [waiterSystems] using h) s hs)).1
-    simp [LostWakeup, this] at hl
+  have := (common h s hs).1
+  simp [LostWakeup, this] at hl
 
 /-- no thread of the system ever dies of an error of the primitives (`notify` / `wait` / `release` on a lock it does not
     hold, use of a `None` condition, assertion) and a completed stop request has set the flag -/
-theorem no_thread_error_and_flag_set {sys : Sys} (h : sys ∈ sysLoop :: waiterSystems) :
+theorem no_thread_error_and_flag_set {sys : Sys} (h : sys ∈ allSystems) :
     ∀ s, Reach sys s → anyCrashed s = false ∧ (stopperDone sys s = true → s.flag = true) := by
   intro s hs
-  simp only [List.mem_cons] at h
-  have key : anyCrashed s = false ∧ stopSetsFlag sys s = true := by
-    rcases h with rfl | h
-    · exact ⟨(gl (loop_good s hs)).2.1, (gl (loop_good s hs)).2.2.1⟩
-    · have g := gw (waiter_good (by simpa [waiterSystems] using h) s hs)
-      exact ⟨g.2.1, g.2.2.1⟩
-  refine ⟨key.1, fun hd => ?_⟩
-  have := key.2
+  have key := common h s hs
+  refine ⟨key.2.1, fun hd => ?_⟩
+  have := key.2.2.1
   simp only [stopSetsFlag, hd, Bool.not_true, Bool.false_or] at this
   exact this
 
 /-- **No deadlock**: as long as the task thread has not ended some thread can take a step (in particular the stop request
     never blocks for ever on a lock the waiting task holds, and vice versa). -/
-theorem no_deadlock {sys : Sys} (h : sys ∈ sysLoop :: waiterSystems) :
+theorem no_deadlock {sys : Sys} (h : sys ∈ allSystems) :
     ∀ s, Reach sys s → (∀ t, taskTh s = some t → t.finished = false) → succs sys s ≠ [] := by
   intro s hs hf
-  simp only [List.mem_cons] at h
-  have key : progress sys s = true := by
-    rcases h with rfl | h
-    · exact (gl (loop_good s hs)).2.2.2.2.2.2
-    · exact (gw (waiter_good (by simpa [waiterSystems] using h) s hs)).2.2.2.2.2.2
+  have key := (common h s hs).2.2.2.2
   simp only [progress, Bool.or_eq_true, Bool.not_eq_true', List.isEmpty_eq_false_iff] at key
   rcases key with k | k
   · cases ht : taskTh s with
@@ -147,15 +277,11 @@ theorem no_deadlock {sys : Sys} (h : sys ∈ sysLoop :: waiterSystems) :
 
 /-- **A wait that starts after `stop()` does not park**: once a stop request has completed, a task thread that is not
     parked never parks again — whichever wait it enters next (`sleep`, `get_next_signal`, with or without timeout). -/
-theorem wait_after_stop_does_not_park {sys : Sys} (h : sys ∈ sysLoop :: waiterSystems) :
+theorem wait_after_stop_does_not_park {sys : Sys} (h : sys ∈ allSystems) :
     ∀ s, Reach sys s → stopperDone sys s = true → ∀ t, taskTh s = some t → t.isParked = false →
       ∀ s' ∈ stepTh sys s 0, ∀ t', taskTh s' = some t' → t'.isParked = false := by
   intro s hs hd t ht hp s' hs' t' ht'
-  simp only [List.mem_cons] at h
-  have key : noParkAfterStop sys s = true := by
-    rcases h with rfl | h
-    · exact (gl (loop_good s hs)).2.2.2.1
-    · exact (gw (waiter_good (by simpa [waiterSystems] using h) s hs)).2.2.2.1
+  have key := (common h s hs).2.2.2.1
   simp only [noParkAfterStop, ht, hd, hp, Bool.not_true, Bool.false_or, List.all_eq_true] at key
   have := key s' hs'
   simp only [ht', Bool.not_eq_true'] at this
@@ -164,12 +290,12 @@ theorem wait_after_stop_does_not_park {sys : Sys} (h : sys ∈ sysLoop :: waiter
 /-- **Released with the stop exception.**  (i) A generic waiting task only ever leaves its waiting loop through
     QMI_TaskStopException (never by a time-out or a normal return), and only after the flag was set.  (ii) From every
     reachable state in which a stop request has completed and no other thread is inside a critical section, the task
-    thread's own steps — with **no** time-out step (`settles` discards them) and without parking again — end, within
-    `settleFuel` steps and on every branch, with the task thread terminated by QMI_TaskStopException. -/
+    **settles** (`Settles`, no bound on the number of steps): its own steps, none of them a time-out, lead on every branch
+    and without parking anew to the task thread terminated by QMI_TaskStopException. -/
 theorem released_with_stop_exception {sys : Sys} (h : sys ∈ waiterSystems) :
     ∀ s, Reach sys s →
       (∀ t, taskTh s = some t → t.finished = true → t.status = .raised .stop ∧ s.flag = true) ∧
-      (stopperDone sys s = true → envQuiet s = true → settles sys endedByStop settleFuel s = true) := by
+      (stopperDone sys s = true → envQuiet s = true → Settles sys endedByStop s) := by
   intro s hs
   have g := gw (waiter_good h s hs)
   constructor
@@ -187,7 +313,7 @@ theorem released_with_stop_exception {sys : Sys} (h : sys ∈ waiterSystems) :
   · intro hd hq
     have r := g.2.2.2.2.2.1
     simp only [releasedB, hd, hq, Bool.and_self, Bool.not_true, Bool.false_or] at r
-    exact r
+    exact settles_sound r
 
 /-- Corollary in terms of steps: from every reachable state in which a stop request has completed and no other thread is
     inside a critical section, the task thread reaches — by its own steps alone — a state in which it has ended with
@@ -196,7 +322,7 @@ theorem released_reaches_stop_exception {sys : Sys} (h : sys ∈ waiterSystems) 
     ∀ s, Reach sys s → stopperDone sys s = true → envQuiet s = true →
       ∃ u, TaskSteps sys s u ∧ Reach sys u ∧ ∃ t, taskTh u = some t ∧ t.status = .raised .stop := by
   intro s hs hd hq
-  obtain ⟨u, hu, hg, t, ht, _⟩ := settles_reaches ((released_with_stop_exception h s hs).2 hd hq)
+  obtain ⟨u, hu, hg, t, ht, _⟩ := ((released_with_stop_exception h s hs).2 hd hq).reaches
   refine ⟨u, hu, hu.reach hs, t, ht, ?_⟩
   simp only [endedByStop, ht, beq_iff_eq] at hg
   exact hg
@@ -206,21 +332,22 @@ theorem released_reaches_stop_exception {sys : Sys} (h : sys ∈ waiterSystems) 
 theorem sleep_interruptible {sys : Sys} (h : sys = sysSleep ∨ sys = sysSleep2) :
     ∀ s, Reach sys s →
       ¬ LostWakeup sys s ∧
-      (stopperDone sys s = true → envQuiet s = true → settles sys endedByStop settleFuel s = true) := by
+      (stopperDone sys s = true → envQuiet s = true → Settles sys endedByStop s) := by
   intro s hs
   have hm : sys ∈ waiterSystems := by rcases h with rfl | rfl <;> simp [waiterSystems]
-  exact ⟨no_lost_wakeup (List.mem_cons_of_mem _ hm) s hs, (released_with_stop_exception hm s hs).2⟩
+  exact ⟨no_lost_wakeup (by simp only [allSystems, List.mem_append]; exact Or.inr hm) s hs,
+         (released_with_stop_exception hm s hs).2⟩
 
-/-- **The loop task finalises**: `loop_finalize` never runs twice; when `QMI_LoopTask.run` has ended it has returned
-    normally, the stop flag is set and `loop_finalize` ran exactly once; and once a stop request has completed the loop
-    task's own steps lead — without any time-out and without parking again — to that end. -/
-theorem loop_task_finalises :
-    ∀ s, Reach sysLoop s →
+/-- **The loop task finalises** (one or two stop requests): `loop_finalize` never runs twice; when `QMI_LoopTask.run` has
+    ended it has returned normally, the stop flag is set and `loop_finalize` ran exactly once; and once a stop request has
+    completed the loop task settles — its own steps, none of them a time-out, lead without parking anew to that end. -/
+theorem loop_task_finalises {sys : Sys} (h : sys ∈ loopSystems) :
+    ∀ s, Reach sys s →
       s.fin ≤ 1 ∧
       (∀ t, taskTh s = some t → t.finished = true → t.status = .done ∧ s.flag = true ∧ s.fin = 1) ∧
-      (stopperDone sysLoop s = true → envQuiet s = true → settles sysLoop endedFinalised settleFuel s = true) := by
+      (stopperDone sys s = true → envQuiet s = true → Settles sys endedFinalised s) := by
   intro s hs
-  have g := gl (loop_good s hs)
+  have g := gl (loop_good h s hs)
   have e := g.2.2.2.2.1
   refine ⟨?_, ?_, ?_⟩
   · simp only [loopExit] at e
@@ -243,7 +370,7 @@ theorem loop_task_finalises :
   · intro hd hq
     have r := g.2.2.2.2.2.1
     simp only [releasedB, hd, hq, Bool.and_self, Bool.not_true, Bool.false_or] at r
-    exact r
+    exact settles_sound r
 
 /-! ## non-vacuity
 
@@ -259,7 +386,7 @@ def parkThenStop : List (Nat × Nat) :=
   [(0,0),(0,0),(0,0),(0,0),(0,0),(0,0),(0,0), (1,0),(1,0),(1,0),(1,0),(1,0),(1,0),(1,0),(1,0),(1,0)]
 
 example : ∃ s, Reach sysRecvN s ∧ stopperDone sysRecvN s = true ∧ s.flag = true ∧ envQuiet s = true ∧
-    (∃ t, taskTh s = some t ∧ t.park = .cond true) :=
+    (∃ t, taskTh s = some t ∧ t.park = .cond 2 true) :=
   ⟨pathState sysRecvN parkThenStop, pathState_reach (by decide +kernel), by decide +kernel, by decide +kernel,
    by decide +kernel, by decide +kernel⟩
 
